@@ -113,8 +113,11 @@ CHECKS = {
         ref="§4 C13", technique="Lean 4 proof + decide on generated tables + exhaustive correspondence over read-out kinds",
         note=NOTE + "Point-wise equality per input; NumPy grids to 2 ulp; Matplotlib rendering not modelled."),
     "C14": dict(
-        text="frac_def, frac_sum_one, frac_in_unit_interval, frac_scale_invariant proved over the rationals for all lists; real "
-             "fractions of both classes compared with the model's exact quotient of the actual read-outs ((n+4) ulp), scale/unit "
+        text="frac_def, frac_sum_one, frac_in_unit_interval, frac_scale_invariant, frac_group_additive, frac_perm proved over the "
+             "rationals for all lists; for the model of the three read-outs from the stored contents: Avogadro's constant cancels "
+             "(mole/mass fractions), scaling and creation-unit invariance, stable nuclides have activity share 0; real "
+             "fractions of both classes compared with the model's exact quotient of the actual read-outs ((n+4) ulp) and with the "
+             "model run on the stored contents and the dataset's constants, scale/unit "
              "invariance and class agreement on generated inventories.",
         ref="§4 C14", technique="Lean 4 proof (ordered-field algebra) + correspondence",
         note=NOTE + "Float rounding per input."),
